@@ -85,8 +85,16 @@ Definition spec_call (c : call) (a : list value) : sout :=
   | CPlus => r (spec_plus (a0 a) (a1 a))
   | CMinus => r (spec_minus (a0 a) (a1 a))
   | CTimes => r (spec_times (a0 a) (a1 a))
-  | CPow => match a0 a, a1 a with
-            | VNum x, VNum y => if (2 <=? Z.abs x) && (40 <? y) then r SErr else r (spec_pow (a0 a) (a1 a))
+  | CPow => (* spec_pow computed without building astronomically large numbers / iterating 2^31 times *)
+            match a0 a, a1 a with
+            | VNum x, VNum y =>
+                if y <? 0 then r SErr
+                else if (x =? 0) && (y =? 0) then r SErr
+                else if x =? 0 then r (SOk (VNum 0))
+                else if x =? 1 then r (SOk (VNum 1))
+                else if x =? -1 then r (SOk (VNum (if Z.even y then 1 else -1)))
+                else if 40 <? y then r SErr
+                else r (spec_pow (a0 a) (a1 a))
             | _, _ => r (spec_pow (a0 a) (a1 a))
             end
   | CLe => r (spec_le (a0 a) (a1 a))
